@@ -1,13 +1,14 @@
 package hx
 
 import (
-	"time"
 	"bytes"
 	"encoding/json"
 	"fmt"
 	"io"
+	"regexp"
 	"sort"
 	"strings"
+	"time"
 	"unicode/utf8"
 )
 
@@ -385,6 +386,8 @@ func ApplyFault(p JPath, op string) bool {
 // CanonJSON decodes with encoding/json (UseNumber) and renders a canonical form in which every array is
 // sorted by the canonical encoding of its elements (a sound over-approximation of "up to the order of
 // set-valued arrays"). blank lists member names whose values are blanked (timestamps).
+var nowStampRe = regexp.MustCompile(`\d{4}-\d{2}-\d{2}T\d{2}:\d{2}:\d{2}(\.\d+)?(Z|[+-]\d{2}:\d{2})`)
+
 func CanonJSON(data []byte, blank map[string]bool) (string, error) {
 	dec := json.NewDecoder(bytes.NewReader(data))
 	dec.UseNumber()
@@ -424,10 +427,14 @@ func canonAny(v any, blank map[string]bool) string {
 	default:
 		// blank["\x00now"]: any string that is a timestamp of the current hour is the creation time under another
 		// member name (an annotation date, say)
-		if str, ok := x.(string); ok && blank["\x00now"] && len(str) >= 20 && len(str) <= 35 {
-			if ts, err := time.Parse(time.RFC3339Nano, str); err == nil && time.Since(ts) < time.Hour && time.Until(ts) < time.Hour {
-				return "_"
-			}
+		if str, ok := x.(string); ok && blank["\x00now"] && len(str) >= 20 {
+			// also inside a longer string (a namespace built from the creation time, say)
+			x = nowStampRe.ReplaceAllStringFunc(str, func(m string) string {
+				if ts, err := time.Parse(time.RFC3339Nano, m); err == nil && time.Since(ts) < time.Hour && time.Until(ts) < time.Hour {
+					return "_"
+				}
+				return m
+			})
 		}
 		b, _ := json.Marshal(x)
 		return string(b)
